@@ -151,6 +151,9 @@ AXES = [
     ("measure", [(str(m), ax_measure(m)) for m in (1, 2, 5)]),
     ("col", [(str(c - 2), ax_col(c)) for c in (4, 8)]),
     ("ln", [("same-package", ax_ln(0, F(7, 8))), ("next-measure", ax_ln(1, F(1, 2))), ("long", ax_ln(3, F(0)))]),
+    # difficulties without a single package (the file ends right after the last package: no cover follows)
+    ("empty", [("hard", lambda doc: doc["ev"].__setitem__(2, [])), ("normal+hard", lambda doc: (doc["ev"].__setitem__(1, []), doc["ev"].__setitem__(2, []))),
+               ("easy", ax_flag("empty_easy"))]),  # (emptied in finalize: other axes edit the first difficulty's first event)
     ("autoplay", [("on", ax_flag("autoplay"))]),
     ("split", [("on", ax_split)]),
     ("order", [("tempo_last", ax_flag("order", "tempo_last")), ("by_channel", ax_flag("order", "by_channel"))]),
@@ -177,6 +180,8 @@ ELEMENTS = [
 
 
 def finalize(doc):
+    if doc.get("empty_easy"):
+        doc["ev"][0] = []
     for d in doc["ev"]:
         cells = set()
         for m, p, ch, k, v in d:
